@@ -775,8 +775,19 @@ Definition model_order_sites : list ((string * string * string * string * string
     (("sourcewalk", "sourcewalk.go", "SourceNode.child", "maps.Keys", "walk.Source.Children"),
       NotObserved "argument of a log line under `if false`") ].
 
-(* every unordered iteration found by the translator is classified, and nothing else is claimed *)
-Lemma order_sites_agree : map fst model_order_sites = MapRangeGen.sites.
+(* every unordered iteration found by the translator is classified, and nothing else is claimed:
+   equality as SETS (moving a loop inside its file does not matter; a new loop, or one that
+   disappeared, does) *)
+Definition okey := (string * string * string * string * string)%type.
+Definition okey_eqb (a b : okey) : bool :=
+  match a, b with
+  | (a1, a2, a3, a4, a5), (b1, b2, b3, b4, b5) =>
+      String.eqb a1 b1 && String.eqb a2 b2 && String.eqb a3 b3 && String.eqb a4 b4 && String.eqb a5 b5
+  end.
+Definition okeys_subset (a b : list okey) : bool := forallb (fun k => existsb (okey_eqb k) b) a.
+Definition order_sites_same_set : bool :=
+  okeys_subset (map fst model_order_sites) MapRangeGen.sites && okeys_subset MapRangeGen.sites (map fst model_order_sites).
+Lemma order_sites_agree : order_sites_same_set = true.
 Proof. vm_compute. reflexivity. Qed.
 
 (* the extensions j5convert sets, grouped by the options message they are set on: for the blocks
